@@ -1,4 +1,4 @@
-import IgVerif.Lemmas.ModuleOrder
+import IgVerif.Lemmas.ModuleTerm
 /-!
 # C16 — module initialisation registers every library once, base classes first
 -/
@@ -26,6 +26,25 @@ the search finds no cycle) the order is a topological order of the emitted libra
 theorem c16_topological_when_unbroken (g : Deps) (h0 : (order g).broken = []) (a b : String)
     (hb : b ∈ g.get a) (ha : a ∈ (order g).libs) : Before (order g).libs b a :=
   c16_unbroken_respected g a b hb ha (by rw [h0]; simp)
+
+def cyc' : Deps := [("liba", ["libb", "libc"]), ("libb", ["libc"]), ("libc", ["libd"]), ("libd", ["libb"])]
+
+/-- **Without hanging.** For every dependency graph — with any number of cycles, and with
+dependencies on libraries that are not keys of the map — the `while` loop of
+`write_python_table_native` ends: every round emits a library, erases an edge of a cycle
+that the search (with its visited set) finds on its first descent, or inserts a missing
+key.  The model's loop carries fuel; this theorem shows the fuel is never exhausted. -/
+theorem c16_terminates (g : Deps) (h : g.keys.Nodup) : (order g).finished = true :=
+  (run_finishes (fuelFor g) g [] [] h List.nodup_nil (by simp) (by simpa using beta_lt_fuelFor g)).1
+
+/-- **Every library is referenced**: each key of the map is emitted (and, by
+`c16_each_once`, exactly once). -/
+theorem c16_all_emitted (g : Deps) (h : g.keys.Nodup) (k : String) (hk : k ∈ g.keys) : k ∈ (order g).libs :=
+  (run_finishes (fuelFor g) g [] [] h List.nodup_nil (by simp) (by simpa using beta_lt_fuelFor g)).2 k
+    ((has_iff g k).mpr hk)
+
+/-- the hypothesis is satisfiable: a `std::map` has distinct keys -/
+example : (Deps.keys cyc').Nodup := by decide
 
 /-! ## non-vacuity and small-scope facts (these are *tests*, by evaluation) -/
 
